@@ -7,9 +7,42 @@ def esc(s):
     return str(s).replace("|", "\\|").replace("\n", " ")
 
 
+CANDIDATES = """Outcome of the candidates of section 7 (all twenty were re-found by the machinery on the real code):
+
+| section-7 id | outcome | key(s) in known_findings.json |
+|---|---|---|
+| F-C02-1 | confirmed, known | C02 `split-dependent/failByDrop=False` |
+| F-C07-1 | confirmed, fixed 6c480a83 | C07 `client.processHandshake/ESCAPED/UnicodeDecodeError` |
+| F-C07-2, F-C07-3 | confirmed (+ two more exception classes at the same site), fixed 7837caa7 | C07 `server.processHandshake/ESCAPED/{ValueError,URLParseError,IDNAError,InvalidCodepoint}` |
+| F-C08-1 | confirmed, fixed 3f578427 | C08 `uri-regex/dollar-accepts-trailing-newline` |
+| F-C08-2 | confirmed at 12 parse sites (+ Unregister), fixed ea2362f8 | C08 `<Cls>.parse/forward_for/AssertionError` |
+| F-C08-3 | confirmed, known | C08 `.../accepts-id-range`, `.../forward_for/accepts-ff-entries` |
+| F-C08-4 | confirmed, fixed d6e6279b | C08 `uri-regex/backslash-d-accepts-unicode-digits` |
+| F-C09-1 | confirmed (+ pure-Python empty-chunk variant), fixed ebfd183a, a0b6310f | C09 `nvx.*/after-reject/valid`, `py/after-reject/empty-chunk/valid` |
+| F-C04-1 | confirmed (+ options=None variant), fixed d5bb0938, a97bf2af | C04 `tx/onMessage/ESCAPED/{TypeError,AttributeError}/result-progressive` |
+| F-C05-1 | confirmed, fixed ba5bad9e | C05, C17 `client/peer-close-in-OPEN/no-timer-armed` |
+| F-C06-1 | confirmed, known | C06 `aio/asyncio-deferred-continuation/phase-gate/established/goodbye-rejected` (+ 5 siblings) |
+| F-C10-1 | confirmed, fixed 4bb5bcbc | C10 `rawsocket.twisted.send/unserializable/*` |
+| F-C10-2 | confirmed, fixed ad1f12fb | C10 `rawsocket.asyncio.send/oversized/ValueError` |
+| F-C11-1 | confirmed, fixed 25140640 | C11 `session.onMessage/Event/shared-kwargs` |
+| F-C12-1 | confirmed (send and receive side), fixed 444bd7d4 | C12 `brotli/context_takeover/msg2`, `.../recv/msg2` |
+| F-C13-1 | confirmed, fixed e59b5271 | C13 `rawsocket.aio.server/handshake/ESCAPED/TransportLost` |
+| F-C13-2 | confirmed (server and client), fixed c3b6af5d | C13 `rawsocket.tx.{server,client}/handshake/attach/non-zero-reserved-octets` |
+| F-C16-1 | confirmed with real zlib, known | C16 `decompress-cap/truncated`, `decompress-cap/escaped-error` |
+| F-C19-1 | confirmed, fixed f3a49ef4 | C19 `AuthScram.on_challenge/kdf=pbkdf2/str-salt/ValueError` |
+| F-C01-1 | confirmed; judged outside the property's scope (fuzzing-only parameter of sendFrame), modelled faithfully, theorem `C01_explicit_mask_omits_key` | — |
+
+Beyond the candidates the checks found the further defects listed below (e.g. C11 unsubscribe during dispatch,
+C10 fallback ERROR embedding the payload, C14 component stop/main-error paths, C18 kwarg named `error`,
+C01 pong written inside a streaming frame, C07 line breaks inside header values, C12 bzip2 trailing empty frame,
+C05 invalid peer close reported clean, C17 ping timeout after close, C03 PUBLISH with kwargs only).
+
+"""
+
+
 def findings():
     k = json.load(open(os.path.join(ROOT, "known_findings.json")))
-    out = ["Every row was found (or re-found) by the check of its property on the real code, with the replay named in",
+    out = [CANDIDATES,"Every row was found (or re-found) by the check of its property on the real code, with the replay named in",
            "`known_findings.json` / `corpus/<id>/`. *fixed* = repaired by one unguarded `fix:` commit in `/repo` (the check passes",
            "on the repaired tree, prints no KNOWN-FINDING line for it and reports it again under the same key if it returns);",
            "*known* = genuine defect recorded, not repaired (reason in the last column); the check prints one KNOWN-FINDING",
